@@ -47,8 +47,31 @@ pub mod fasta {
     mod iter {
         pub use core::iter::{Zip, Skip, Take};
         use vstd::prelude::*;
-        verus! { pub(super) trait IntoIterator { type Item; type IntoIter; spec fn ii_pre(self) -> bool; fn into_iter(self) -> Self::IntoIter requires self.ii_pre(); } }
+        verus! {
+        pub(super) trait IntoIterator: Sized {
+            type Item;
+            type IntoIter: super::Iterator<Item = Self::Item>;
+            #[verifier::prophetic] spec fn ii_pre(self) -> bool;
+            /// byte views of the items the resulting iterator will yield (meaningful when ii_lawful)
+            #[verifier::prophetic] spec fn ii_views(self) -> Seq<Seq<u8>>;
+            spec fn ii_lawful(self) -> bool;
+            fn into_iter(self) -> (r: Self::IntoIter)
+                requires self.ii_pre()
+                ensures super::Iterator::it_pre(&r),
+                    self.ii_lawful() ==> super::Iterator::it_lawful(&r) && super::Iterator::it_views(&r) == self.ii_views();
+        }
+        /// std: every Iterator is IntoIterator (identity)
+        impl<I: super::Iterator> IntoIterator for I {
+            type Item = I::Item;
+            type IntoIter = I;
+            #[verifier::prophetic] open spec fn ii_pre(self) -> bool { super::Iterator::it_pre(&self) }
+            #[verifier::prophetic] open spec fn ii_views(self) -> Seq<Seq<u8>> { super::Iterator::it_views(&self) }
+            open spec fn ii_lawful(self) -> bool { super::Iterator::it_lawful(&self) }
+            fn into_iter(self) -> (r: I) { self }
+        }
+        }
     }
+    use self::iter::IntoIterator;
     trait DoubleEndedIterator: Iterator {
         fn next_back(&mut self) -> (r: Option<Self::Item>)
             requires old(self).it_pre()
@@ -986,6 +1009,102 @@ pub mod fasta {
 //@end
 }
 
+    // ---- rendering specs (C10) -------------------------------------------------------------------------
+    /// `> head LF`
+    pub open spec fn fa_head_r(h: Seq<u8>) -> Seq<u8> { seq![62u8] + h + seq![10u8] }
+    /// one record with the sequence on a single line
+    pub open spec fn fa_render(h: Seq<u8>, sq: Seq<u8>) -> Seq<u8> { fa_head_r(h) + sq + seq![10u8] }
+    /// the sequence cut into lines of w bytes (the last one 1..=w bytes), each followed by LF; nothing for an empty sequence
+    pub open spec fn wrap_lines(sq: Seq<u8>, w: int) -> Seq<u8>
+        decreases sq.len()
+    {
+        if w <= 0 || sq.len() == 0 { Seq::<u8>::empty() }
+        else if sq.len() <= w { sq + seq![10u8] }
+        else { sq.subrange(0, w) + seq![10u8] + wrap_lines(sq.subrange(w, sq.len() as int), w) }
+    }
+    /// what the iterator form writes: like wrap_lines, but a single empty line for an empty sequence
+    pub open spec fn wrap_lines_iter(sq: Seq<u8>, w: int) -> Seq<u8> { if sq.len() == 0 { seq![10u8] } else { wrap_lines(sq, w) } }
+    pub open spec fn fa_render_wrap(h: Seq<u8>, sq: Seq<u8>, w: int) -> Seq<u8> { fa_head_r(h) + wrap_lines_iter(sq, w) }
+    /// LF inserted after every w bytes as long as more bytes follow (the bytes written before the final LF)
+    pub open spec fn lazy_wrap(t: Seq<u8>, w: int) -> Seq<u8>
+        decreases t.len()
+    {
+        if w <= 0 || t.len() <= w { t } else { t.subrange(0, w) + seq![10u8] + lazy_wrap(t.subrange(w, t.len() as int), w) }
+    }
+    /// number of bytes on the current (last) line
+    pub open spec fn last_len(t: Seq<u8>, w: int) -> int
+        decreases t.len()
+    {
+        if w <= 0 || t.len() <= w { t.len() as int } else { last_len(t.subrange(w, t.len() as int), w) }
+    }
+    pub proof fn lemma_last_len_bounds(t: Seq<u8>, w: int)
+        requires w >= 1
+        ensures 0 <= last_len(t, w) <= w, t.len() > 0 ==> last_len(t, w) >= 1, t.len() == 0 ==> last_len(t, w) == 0
+        decreases t.len()
+    {
+        if t.len() > w { lemma_last_len_bounds(t.subrange(w, t.len() as int), w); }
+    }
+    /// more bytes that still fit on the current line
+    pub proof fn lemma_lazy_append_fit(t: Seq<u8>, x: Seq<u8>, w: int)
+        requires w >= 1, last_len(t, w) + x.len() <= w
+        ensures lazy_wrap(t + x, w) == lazy_wrap(t, w) + x, last_len(t + x, w) == last_len(t, w) + x.len()
+        decreases t.len()
+    {
+        if t.len() <= w {
+            assert(lazy_wrap(t + x, w) == t + x);
+        } else {
+            let t2 = t.subrange(w, t.len() as int);
+            lemma_lazy_append_fit(t2, x, w);
+            assert((t + x).subrange(0, w) =~= t.subrange(0, w));
+            assert((t + x).subrange(w, (t + x).len() as int) =~= t2 + x);
+            assert(t.subrange(0, w) + seq![10u8] + (lazy_wrap(t2, w) + x) =~= (t.subrange(0, w) + seq![10u8] + lazy_wrap(t2, w)) + x);
+        }
+    }
+    /// the current line is full: the next bytes start a new line
+    pub proof fn lemma_lazy_append_full(t: Seq<u8>, x: Seq<u8>, w: int)
+        requires w >= 1, last_len(t, w) == w, 1 <= x.len() <= w
+        ensures lazy_wrap(t + x, w) == lazy_wrap(t, w) + seq![10u8] + x, last_len(t + x, w) == x.len()
+        decreases t.len()
+    {
+        if t.len() <= w {
+            assert(t.len() == w);
+            assert((t + x).subrange(0, w) =~= t);
+            assert((t + x).subrange(w, (t + x).len() as int) =~= x);
+            assert(lazy_wrap(x, w) == x);
+            assert(last_len(x, w) == x.len());
+        } else {
+            let t2 = t.subrange(w, t.len() as int);
+            lemma_lazy_append_full(t2, x, w);
+            assert((t + x).subrange(0, w) =~= t.subrange(0, w));
+            assert((t + x).subrange(w, (t + x).len() as int) =~= t2 + x);
+            assert(t.subrange(0, w) + seq![10u8] + (lazy_wrap(t2, w) + seq![10u8] + x) =~= (t.subrange(0, w) + seq![10u8] + lazy_wrap(t2, w)) + seq![10u8] + x);
+        }
+    }
+    /// both cases at once (for callers that may not branch)
+    pub proof fn lemma_lazy_step(t: Seq<u8>, x: Seq<u8>, w: int)
+        requires w >= 1
+        ensures last_len(t, w) + x.len() <= w ==> lazy_wrap(t + x, w) == lazy_wrap(t, w) + x && last_len(t + x, w) == last_len(t, w) + x.len(),
+                last_len(t, w) == w && 1 <= x.len() <= w ==> lazy_wrap(t + x, w) == lazy_wrap(t, w) + seq![10u8] + x && last_len(t + x, w) == x.len(),
+    {
+        if last_len(t, w) + x.len() <= w { lemma_lazy_append_fit(t, x, w); }
+        if last_len(t, w) == w && 1 <= x.len() <= w { lemma_lazy_append_full(t, x, w); }
+    }
+    /// closing the last line
+    pub proof fn lemma_lazy_final(sq: Seq<u8>, w: int)
+        requires w >= 1
+        ensures lazy_wrap(sq, w) + seq![10u8] == wrap_lines_iter(sq, w)
+        decreases sq.len()
+    {
+        if sq.len() == 0 {
+            assert(lazy_wrap(sq, w) + seq![10u8] =~= seq![10u8]);
+        } else if sq.len() <= w {
+        } else {
+            let s2 = sq.subrange(w, sq.len() as int);
+            lemma_lazy_final(s2, w);
+            assert((sq.subrange(0, w) + seq![10u8] + lazy_wrap(s2, w)) + seq![10u8] =~= sq.subrange(0, w) + seq![10u8] + (lazy_wrap(s2, w) + seq![10u8]));
+        }
+    }
+
     /// lines_v in terms of the pairs the line iterator walks over
     proof fn lemma_concat_push(ls: Seq<Seq<u8>>, x: Seq<u8>)
         ensures concat(ls.push(x)) == concat(ls) + x
@@ -1011,6 +1130,18 @@ pub mod fasta {
         requires self.rwf(),
         ensures
             [C13|fasta.Record.seq] r@ == self.rawseq_s(),
+//@end
+//@sig fasta::Record::write ret=r tags=C10
+//@spec
+        requires self.rwf(),
+        ensures
+            [C10|fasta.Record.write] r is Ok ==> writer.fin() == writer.written() + fa_render(self.head_s(), self.seq_s()),
+//@end
+//@sig fasta::Record::write_wrap ret=r tags=C10
+//@spec
+        requires self.rwf(), wrap > 0,
+        ensures
+            [C10|fasta.Record.write_wrap] r is Ok ==> writer.fin() == writer.written() + fa_render_wrap(self.head_s(), self.seq_s(), wrap as int),
 //@end
 }
 
@@ -1423,6 +1554,202 @@ pub mod fasta {
                 && (r matches Some(Ok(_)) ==> final(rset).n() >= 1),
 //@end
 }
+
+    // =============================================================================================
+    // writers (C10)
+    // =============================================================================================
+//@fn fasta::write_head ret=r tags=C10
+//@spec
+        ensures
+            [C10|fasta.write_head] r is Ok ==> writer.fin() == writer.written() + fa_head_r(head@),
+//@body_start
+        broadcast use io::resolve_law_b;
+//@end
+
+//@fn fasta::write_id_desc ret=r tags=C10
+//@spec
+        ensures
+            [C10|fasta.write_id_desc] r is Ok ==> writer.fin() == writer.written() + fa_head_r(match desc { Some(d) => id@ + seq![32u8] + d@, None => id@ }),
+//@body_start
+        broadcast use io::resolve_law_b;
+//@end
+
+//@fn fasta::write_seq ret=r tags=C10
+//@spec
+        ensures
+            [C10|fasta.write_seq] r is Ok ==> writer.fin() == writer.written() + seq@ + seq![10u8],
+//@body_start
+        broadcast use io::resolve_law_b;
+//@end
+
+//@fn fasta::write_to ret=r tags=C10
+//@spec
+        ensures
+            [C10|fasta.write_to] r is Ok ==> writer.fin() == writer.written() + fa_render(head@, seq@),
+//@body_start
+        broadcast use io::resolve_law_b, io::axiom_lend_keeps_fin;
+//@tail vx_r
+        proof { }
+//@end
+
+//@fn fasta::write_parts ret=r tags=C10
+//@spec
+        ensures
+            [C10|fasta.write_parts] r is Ok ==> writer.fin() == writer.written() + fa_render(match desc { Some(d) => id@ + seq![32u8] + d@, None => id@ }, seq@),
+//@body_start
+        broadcast use io::resolve_law_b, io::axiom_lend_keeps_fin;
+//@tail vx_r
+        proof { }
+//@end
+
+//@fn fasta::write_wrap_seq ret=r tags=C10
+//@spec
+        requires
+            wrap > 0,
+        ensures
+            [C10|fasta.write_wrap_seq] r is Ok ==> writer.fin() == writer.written() + wrap_lines(seq@, wrap as int),
+//@body_start
+        broadcast use io::resolve_law_b;
+        let ghost w0 = writer.written();
+        let ghost fin0 = writer.fin();
+//@loop 0 r8=vx_ch
+            invariant
+                wrap > 0, chunks_size(&vx_ch) == wrap, writer.fin() == fin0,
+                [C10|fasta.write_wrap_seq.inv] writer.written() + wrap_lines(chunks_rest(&vx_ch), wrap as int) == w0 + wrap_lines(seq@, wrap as int),
+            ensures
+                writer.written() == w0 + wrap_lines(seq@, wrap as int), writer.fin() == fin0,
+            decreases chunks_rest(&vx_ch).len(),
+//---pre
+            let ghost rest0 = chunks_rest(&vx_ch);
+            let ghost wr0 = writer.written();
+//@at tail expect="Ok\(\(\)\)"
+        proof { }
+//@end
+
+//@fn fasta::write_wrap ret=r tags=C10
+//@spec
+        requires
+            wrap > 0,
+        ensures
+            [C10|fasta.write_wrap] r is Ok ==> writer.fin() == writer.written()
+                + fa_head_r(match desc { Some(d) => id@ + seq![32u8] + d@, None => id@ }) + wrap_lines(seq@, wrap as int),
+//@body_start
+        broadcast use io::resolve_law_b, io::axiom_lend_keeps_fin;
+//@tail vx_r
+        proof { }
+//@end
+
+//@fn fasta::write_seq_iter ret=r tags=C10
+//@spec
+        requires
+            seq.it_pre(), seq.it_lawful(),
+            forall|x: &'a [u8]| #[trigger] P::iv(&x) == x@,
+        ensures
+            [C10|fasta.write_seq_iter] r is Ok ==> writer.fin() == writer.written() + concat(seq.it_views()) + seq![10u8],
+//@body_start
+        broadcast use io::resolve_law_b;
+        let ghost w0 = writer.written();
+        let ghost fin0 = writer.fin();
+        let ghost all = seq.it_views();
+//@loop 0 r8=vx_it
+            invariant
+                vx_it.it_pre(), vx_it.it_lawful(), writer.fin() == fin0,
+                forall|x: &'a [u8]| #[trigger] P::iv(&x) == x@,
+                vx_it.it_views().len() <= all.len(),
+                vx_it.it_views() =~= all.subrange(all.len() - vx_it.it_views().len(), all.len() as int),
+                [C10|fasta.write_seq_iter.inv] writer.written() == w0 + concat(all.subrange(0, all.len() - vx_it.it_views().len())),
+            ensures
+                writer.written() == w0 + concat(all), writer.fin() == fin0,
+            decreases vx_it.it_dec(),
+//---pre
+            let ghost k0 = all.len() - vx_it.it_views().len();
+            proof { assert(all.subrange(0, all.len() as int) =~= all); }
+//@at depth=2 kw=writer nth=0 expect="writer\.write_all\("
+            proof {
+                assert(all.subrange(0, k0 + 1) =~= all.subrange(0, k0).push(all[k0]));
+                lemma_concat_push(all.subrange(0, k0), all[k0]);
+                assert(w0 + (concat(all.subrange(0, k0)) + all[k0]) =~= (w0 + concat(all.subrange(0, k0))) + all[k0]);
+            }
+//@end
+
+//@fn fasta::write_wrap_seq_iter ret=r tags=C10
+//@spec
+        requires
+            wrap > 0, seq.ii_pre(), seq.ii_lawful(),
+            forall|x: &'a [u8]| #[trigger] <P::IntoIter as Iterator>::iv(&x) == x@,
+        ensures
+            [C10|fasta.write_wrap_seq_iter] r is Ok ==> writer.fin() == writer.written() + wrap_lines_iter(concat(seq.ii_views()), wrap as int),
+//@body_start
+        broadcast use io::resolve_law_b;
+        let ghost w0 = writer.written();
+        let ghost fin0 = writer.fin();
+        let ghost all = seq.ii_views();
+        let ghost w = wrap as int;
+//@loop 0 r8=vx_it into=1
+            invariant
+                wrap > 0, w == wrap, vx_it.it_pre(), vx_it.it_lawful(), writer.fin() == fin0,
+                forall|x: &'a [u8]| #[trigger] <P::IntoIter as Iterator>::iv(&x) == x@,
+                vx_it.it_views().len() <= all.len(),
+                vx_it.it_views() =~= all.subrange(all.len() - vx_it.it_views().len(), all.len() as int),
+                [C10|fasta.write_wrap_seq_iter.outer] ({
+                    let t = concat(all.subrange(0, all.len() - vx_it.it_views().len()));
+                    writer.written() == w0 + lazy_wrap(t, w) && n_line == last_len(t, w) }),
+            ensures
+                writer.written() == w0 + lazy_wrap(concat(all), w), writer.fin() == fin0,
+            decreases vx_it.it_dec(),
+//---pre
+            let ghost k0 = all.len() - vx_it.it_views().len();
+            let ghost t0 = concat(all.subrange(0, k0));
+            proof { assert(all.subrange(0, all.len() as int) =~= all); lemma_last_len_bounds(t0, w); }
+//@loop 1 kw=loop
+                invariant_except_break
+                    chunk@.len() <= subseq@.len(), chunk@ =~= subseq@.subrange(subseq@.len() - chunk@.len(), subseq@.len() as int),
+                    [C10|fasta.write_wrap_seq_iter.inner] ({
+                        let t = t0 + subseq@.subrange(0, subseq@.len() - chunk@.len());
+                        let eager = n_line == 0 && t.len() > 0;
+                        &&& writer.written() == w0 + lazy_wrap(t, w) + (if eager { seq![10u8] } else { Seq::<u8>::empty() })
+                        &&& (eager ==> last_len(t, w) == w && chunk@.len() > 0)
+                        &&& (!eager ==> n_line == last_len(t, w))
+                        &&& n_line <= w }),
+                invariant
+                    wrap > 0, w == wrap, writer.fin() == fin0, k0 < all.len(), subseq@ == all[k0], t0 == concat(all.subrange(0, k0)),
+                ensures
+                    writer.written() == w0 + lazy_wrap(t0 + subseq@, w) && n_line == last_len(t0 + subseq@, w) && writer.fin() == fin0,
+                decreases chunk@.len(), (if n_line == wrap { 1int } else { 0int }),
+//@at depth=3 kw=let nth=0 expect="let remaining = "
+                    let ghost tin = t0 + subseq@.subrange(0, subseq@.len() - chunk@.len());
+                    let ghost eager = n_line == 0 && tin.len() > 0;
+                    let ghost wr0 = writer.written();
+                    proof { lemma_last_len_bounds(tin, w); }
+//@at depth=4 kw=writer nth=0 expect="writer\.write_all\(chunk\)"
+                        proof {
+                            assert(tin + chunk@ =~= t0 + subseq@) by {
+                                assert(subseq@.subrange(0, subseq@.len() - chunk@.len()) + chunk@ =~= subseq@);
+                            }
+                            lemma_lazy_step(tin, chunk@, w);
+                        }
+//@at depth=3 kw=let nth=1 expect="let \(line, rest\) = chunk\.split_at\("
+                    proof {
+                        let ln = chunk@.subrange(0, (w - n_line) as int);
+                        assert(tin + ln =~= t0 + subseq@.subrange(0, subseq@.len() - chunk@.len() + (w - n_line))) by {
+                            assert(subseq@.subrange(0, subseq@.len() - chunk@.len()) + ln =~= subseq@.subrange(0, subseq@.len() - chunk@.len() + (w - n_line)));
+                        }
+                        lemma_lazy_step(tin, ln, w);
+                        lemma_last_len_bounds(tin + ln, w);
+                    }
+//@after_loop 1
+            proof {
+                assert(all.subrange(0, k0 + 1) =~= all.subrange(0, k0).push(all[k0]));
+                lemma_concat_push(all.subrange(0, k0), all[k0]);
+            }
+//@at depth=2 kw=let nth=0 expect="let mut chunk = subseq;"
+            proof {
+                assert(subseq@.subrange(0, 0) =~= Seq::<u8>::empty());
+                assert(t0 + Seq::<u8>::empty() =~= t0);
+            }
+//@at depth=1 kw=writer nth=0 expect="writer\.write_all\("
+        proof { lemma_lazy_final(concat(all), w); }
+//@end
 
     } // verus!
 }
